@@ -207,6 +207,19 @@ def execute(case):
                 np.asarray(p)[0] = nv
                 if v.equal(p) or p.equal(v):
                     res.violate("equal:ignores-difference", f"{ctx}: equal() true after changing element 0 to {nv!r}")
+            if arr.dtype.kind == "f":
+                # equality is ==: a value differing in the 7th significant digit is a different value
+                idx = next((i for i, m in enumerate(exp_na) if not m and np.isfinite(arr[i]) and arr[i] != 0), None)
+                if idx is not None:
+                    q1 = v.copy()
+                    np.asarray(q1)[idx] = arr[idx] * (1 + 2e-7)
+                    q2 = v.copy()
+                    np.asarray(q2)[idx] = arr[idx] * (1 + 4e-7)
+                    if np.asarray(q1)[idx] != arr[idx] and (v.equal(q1) or q1.equal(v)):
+                        res.violate("equal:ignores-small-difference", f"{ctx}: equal() is true for element {idx} = {arr[idx]!r} vs {np.asarray(q1)[idx]!r}")
+                    elif v.equal(q1) != q1.equal(v) or (v.equal(q1) and q1.equal(q2) and not v.equal(q2)):
+                        res.violate("equal:not-an-equivalence", f"{ctx}: symmetric/transitive law broken around element {idx}")
+                    res.count("equal-near-values-checked")
             if n >= 2 and any(exp_na) and not all(exp_na):
                 # move the missing mask: a vector with NA at other positions must not be equal
                 q = v[::-1].copy()
